@@ -41,6 +41,7 @@ inductive Res where
   | integrity          -- exc.IntegrityError (duplicate key), not a disconnect
   | operational        -- exc.OperationalError (unknown savepoint / injected), not a disconnect
   | disconnect         -- exc.DBAPIError with connection_invalidated = True
+  | interrupted        -- a BaseException (KeyboardInterrupt) raised by the DBAPI passes through
 deriving DecidableEq, Repr, Inhabited
 
 inductive Stmt where
@@ -58,6 +59,7 @@ deriving DecidableEq, Repr, Inhabited
     `disc`: one it does (the raw connection is dead afterwards) -/
 inductive FKind where
   | err | disc
+  | kbi      -- a BaseException that is not an Exception (KeyboardInterrupt, CancelledError)
 deriving DecidableEq, Repr, Inhabited
 
 /-- pool reset_on_return -/
@@ -83,6 +85,10 @@ structure Raw where
   autocommit : Bool              -- isolation_level AUTOCOMMIT in effect on the DBAPI connection
   follows : Bool                 -- meaningful for idle connections only: no transaction is open,
                                  -- so at the next checkout it sees whatever is committed by then
+  readUnc : Bool                 -- PRAGMA read_uncommitted = 1 (isolation_level READ UNCOMMITTED)
+  finalize : List Bool           -- _ConnectionRecord.finalize_callback: one entry per
+                                 -- _set_connection_characteristics call; true = it resets the
+                                 -- isolation level
 deriving DecidableEq, Repr, Inhabited
 
 structure DB where
@@ -96,6 +102,8 @@ structure DB where
   faults : List (FPoint × FKind) -- armed one-shot faults, consumed at the next matching call
   reset : ResetStyle
   listener : Listener
+  engineOpts : List Bool         -- engine-level execution_options registrations, in order:
+                                 -- true = isolation_level="AUTOCOMMIT", false = logging_token
 deriving DecidableEq, Repr, Inhabited
 
 def Data.insert (d : Data) (k : Nat) : Option Data :=
@@ -141,7 +149,8 @@ def DB.rollback (db : DB) : DB :=
     record goes back to the pool empty: `_ConnectionRecord.invalidate` + `checkin`.
     The fields of `raw` are meaningless until the next checkout; kept canonical. -/
 def DB.kill (db : DB) : DB :=
-  { db with raw := { db.raw with working := db.committed, saves := [], autocommit := false },
+  { db with raw := { db.raw with working := db.committed, saves := [], autocommit := false,
+                                 readUnc := false, finalize := [] },
             idle := db.idle ++ [none] }
 
 /-- `time.time()` -/
@@ -151,7 +160,7 @@ def DB.tick (db : DB) : DB × Nat := ({ db with clock := db.clock + 1 }, db.cloc
 def DB.newRaw (db : DB) : DB :=
   let (db, t) := db.tick
   { db with raw := { rid := db.nextRid, born := t, working := db.committed, saves := [],
-                     autocommit := false, follows := false },
+                     autocommit := false, follows := false, readUnc := false, finalize := [] },
             nextRid := db.nextRid + 1 }
 
 /-- `Pool.connect()` for a QueuePool used by one thread: `_do_get` takes the head of the
@@ -177,7 +186,9 @@ def DB.poolInvalidate (db : DB) : DB :=
 /-- `_ConnectionFairy._reset` followed by `_ConnectionRecord.checkin` → `_return_conn`.
     `transactionWasReset`: Connection.close() passed `transaction_reset=True`.
     A fault during the reset invalidates the record (`_finalize_fairy`'s except clause):
-    the raw connection is closed, nothing is raised. -/
+    the raw connection is closed and the empty record is checked in; nothing is raised —
+    unless the fault is a BaseException that is not an Exception: then (fix 49615f9) the
+    empty record is checked in as well and the exception is re-raised (`resetInterrupted`). -/
 def DB.checkin (db : DB) (transactionWasReset : Bool) : DB :=
   let (db, bad) : DB × Bool :=
     match db.reset with
@@ -194,10 +205,21 @@ def DB.checkin (db : DB) (transactionWasReset : Bool) : DB :=
     | .none => (db, false)
   if bad then db
   else
-    -- finalize_callback: reset_characteristic (isolation level back to default)
-    let r := { db.raw with autocommit := false,
+    -- `while self.finalize_callback: finalizer(connection)`: a callback that covers the
+    -- isolation level puts it back to the default (autocommit off, read_uncommitted = 0)
+    let iso := db.raw.finalize.any id
+    let r := { db.raw with autocommit := db.raw.autocommit && !iso,
+                           readUnc := db.raw.readUnc && !iso,
+                           finalize := [],
                            follows := decide (db.raw.working = db.committed) && db.raw.saves.isEmpty }
     { db with raw := r, idle := db.idle ++ [some r] }
+
+/-- the reset-on-return of `checkin` is interrupted by a BaseException -/
+def DB.resetInterrupted (db : DB) (transactionWasReset : Bool) : Bool :=
+  match db.reset with
+  | .rollback => !transactionWasReset && (db.takeFault .rollback).1 == some .kbi
+  | .commit => (db.takeFault .commit).1 == some .kbi
+  | .none => false
 
 /-! ## Connection and transaction objects -/
 
@@ -220,16 +242,29 @@ structure Conn where
   canReconnect : Bool
   warns : Nat
   db : DB
+  zombie : Bool := false   -- close() was interrupted during reset-on-return: the Connection still
+                           -- references a fairy whose record is invalidated and not checked in
 deriving DecidableEq, Repr, Inhabited
 
-def DB.init (reset : ResetStyle) (listener : Listener := .none) : DB :=
+def DB.init (reset : ResetStyle) (listener : Listener := .none) (engineOpts : List Bool := []) : DB :=
   { committed := [], raw := default, idle := [], clock := 0, invalTime := 0, nextRid := 0,
-    faults := [], reset := reset, listener := listener }
+    faults := [], reset := reset, listener := listener, engineOpts := engineOpts }
+
+/-- one `_set_connection_characteristics` call on the held DBAPI connection: `iso` = it sets
+    isolation_level "AUTOCOMMIT" (the fake driver commits what is pending when autocommit is
+    switched on).  The per-checkout reset callback is queued on the record. -/
+def DB.applyChar (db : DB) (autocommit : Bool) : DB :=
+  let db := if autocommit then { db.commit with raw := { db.commit.raw with autocommit := true } } else db
+  { db with raw := { db.raw with finalize := db.raw.finalize ++ [autocommit] } }
+
+/-- pool checkout for a NEW Connection: the `engine_connect` listeners installed by
+    engine-level execution options apply their characteristics -/
+def DB.connectRaw (db : DB) : DB := db.engineOpts.foldl DB.applyChar db.checkout
 
 /-- `engine.connect()` on a database/pool state -/
 def Conn.connect (db : DB) : Conn :=
   { txns := [], transaction := none, nested := none, spSeq := 0, ctxMgr := none,
-    hasDbapi := true, canReconnect := true, warns := 0, db := db.checkout }
+    hasDbapi := true, canReconnect := true, warns := 0, db := db.connectRaw }
 
 def Conn.txn (c : Conn) (h : Nat) : Txn := c.txns.getD h default
 def Conn.act (c : Conn) (h : Nat) : Bool := (c.txn h).active
@@ -363,12 +398,19 @@ def Conn.discError (c : Conn) : Conn × Res :=
     (if c.invalidated then c else { c with hasDbapi := false, db := c.db.kill }, .disconnect)
   else (c.onDisconnect, .disconnect)
 
+/-- `_handle_dbapi_exception` for an exit exception (`util.is_exit_exception`): treated as a
+    disconnect of THIS connection only (`invalidate_pool_on_disconnect = False`), never
+    wrapped, re-raised as is -/
+def Conn.kbiError (c : Conn) : Conn × Res :=
+  (if c.invalidated then c else { c with hasDbapi := false, db := c.db.kill }, .interrupted)
+
 def Conn.dbapiError (c : Conn) (k : FKind) : Conn × Res :=
-  if c.db.listener == .forceDisc then c.discError
+  if k == .kbi then c.kbiError
+  else if c.db.listener == .forceDisc then c.discError
   else
     match k with
     | .disc => c.discError
-    | .err => c.plainError
+    | _ => c.plainError
 
 /-- a DBAPI call at fault point `p`: fails as armed, else `f` is applied to the database -/
 def Conn.dbapiCall (c : Conn) (p : FPoint) (f : DB → DB) : Conn × Res :=
@@ -526,6 +568,13 @@ def Conn.release (c : Conn) (skipReset : Bool) : Conn :=
   let c := if c.hasDbapi then { c with db := c.db.checkin skipReset, hasDbapi := false } else c
   { c with canReconnect := false }
 
+/-- … or the BaseException raised by the DBAPI during reset-on-return comes out of
+    `conn.close()`: `self._dbapi_connection = None` is never reached -/
+def Conn.releaseOrInterrupt (c : Conn) (skipReset : Bool) : Conn × Res :=
+  if c.hasDbapi && c.db.resetInterrupted skipReset then
+    ({ c with db := c.db.checkin skipReset, zombie := true }, .interrupted)
+  else (c.release skipReset, .ok)
+
 /-- `Connection.close()` (with fix 387ee97: `skip_reset = self._transaction.is_active`,
     read before the transaction is closed); an exception from closing the transaction
     leaves close() before the connection is released -/
@@ -533,8 +582,8 @@ def Conn.close (c : Conn) : Conn × Res :=
   match c.transaction with
   | some t =>
     let skip := c.act t
-    andThen (c.tClose t) fun c => (c.release skip, .ok)
-  | none => (c.release false, .ok)
+    andThen (c.tClose t) fun c => c.releaseOrInterrupt skip
+  | none => c.releaseOrInterrupt false
 
 /-- `_transaction_is_closed()` is `not self._deactivated_from_connection`, i.e.
     "this object is still the connection's current (nested) transaction" -/
@@ -588,12 +637,16 @@ inductive Op where
                                      -- then a new one is checked out
   | gc                               -- the Connection is garbage collected without close()
   | autocommit                       -- conn.execution_options(isolation_level="AUTOCOMMIT")
+  | readUnc                          -- conn.execution_options(isolation_level="READ UNCOMMITTED")
+  | logToken                         -- conn.execution_options(logging_token=…)
+  | otherOpt                         -- conn.execution_options(stream_results=True): no characteristic
+  | tokenAuto                        -- logging_token and isolation_level="AUTOCOMMIT" in ONE call
 deriving DecidableEq, Repr, Inhabited
 
 /-- `[engine.connect() for _ in range(n)]` while ours is held … -/
 def DB.warmTake : Nat → DB → List Raw → DB × List Raw
   | 0, db, acc => (db, acc)
-  | n + 1, db, acc => let db' := db.checkout; DB.warmTake n db' (acc ++ [db'.raw])
+  | n + 1, db, acc => let db' := db.connectRaw; DB.warmTake n db' (acc ++ [db'.raw])
 
 /-- … then `.close()` on each of them in order (no transaction: ordinary reset-on-return) -/
 def DB.warmReturn : List Raw → DB → DB
@@ -610,16 +663,28 @@ def DB.warm (n : Nat) (db : DB) : DB :=
 def Conn.gc (c : Conn) : Conn :=
   { txns := [], transaction := none, nested := none, spSeq := 0, ctxMgr := none,
     hasDbapi := false, canReconnect := false, warns := c.warns,
-    db := if c.hasDbapi then c.db.checkin false else c.db }
+    -- a zombie's record was already checked in (`fairy_ref is not ref`: the finalizer returns)
+    db := if c.zombie then c.db else if c.hasDbapi then c.db.checkin false else c.db }
 
 /-- `Connection.execution_options(isolation_level="AUTOCOMMIT")` →
     `_set_connection_characteristics` -/
 def Conn.setAutocommit (c : Conn) : Conn × Res :=
   if c.inTransaction then (c, .invalidRequest)
+  else andThen c.connProp fun c => ({ c with db := c.db.applyChar true }, .ok)
+
+/-- `isolation_level="READ UNCOMMITTED"`: isolation_level = "" (autocommit off) and
+    PRAGMA read_uncommitted = 1 -/
+def Conn.setReadUnc (c : Conn) : Conn × Res :=
+  if c.inTransaction then (c, .invalidRequest)
   else
     andThen c.connProp fun c =>
-      -- the (fake) driver commits whatever is pending when autocommit is switched on
-      ({ c with db := { c.db.commit with raw := { c.db.commit.raw with autocommit := true } } }, .ok)
+      ({ c with db := { c.db with raw := { c.db.raw with autocommit := false, readUnc := true,
+                                                          finalize := c.db.raw.finalize ++ [true] } } }, .ok)
+
+/-- `logging_token=…`: not transactional, nothing changes on the DBAPI connection, but a
+    (no-op) reset callback is queued -/
+def Conn.setLogToken (c : Conn) : Conn × Res :=
+  andThen c.connProp fun c => ({ c with db := c.db.applyChar false }, .ok)
 
 def Conn.step (c : Conn) : Op → Conn × Res
   | .begin => c.begin
@@ -641,6 +706,10 @@ def Conn.step (c : Conn) : Op → Conn × Res
   | .connect => (Conn.connect c.gc.db, .ok)
   | .gc => (c.gc, .ok)
   | .autocommit => c.setAutocommit
+  | .readUnc => c.setReadUnc
+  | .logToken => c.setLogToken
+  | .otherOpt => (c, .ok)
+  | .tokenAuto => c.setAutocommit
 
 def Conn.run (c : Conn) : List Op → Conn
   | [] => c
